@@ -683,7 +683,7 @@ def run(tier, seed):
             "are {}".format(bondless, sorted(RESTRICTIONS)))
     canon_items, spelled_items, counters = molecule_space(tier)
     per_key = {}
-    r1 = pmap("checks.c09:mol_item", canon_items, chunk=40, seed=seed)
+    r1 = pmap("checks.c09:mol_item", canon_items, chunk=10, seed=seed)
     r2 = pmap("checks.c09:mol_item", spelled_items, chunk=100, seed=seed)
     _collect(res, r1, per_key)
     _collect(res, r2, per_key)
